@@ -289,6 +289,93 @@ def rule_SB11(rep, prog, q):
                         sample={"block_flags": bflags, "flags_in": inflags, "barrier": want})
 
 
+def rule_AI12(rep, prog, q):
+    rid = rep.rule("C04-AI12", "the reader that gives its slot back takes the barrier lock exactly when it was the LAST one: _dispatch_lane_non_barrier_complete_try_lock, "
+                   "evaluated over queue widths, readers still running, a parked barrier (PENDING_BARRIER with its width-1 pre-reserved slots) and DIRTY, sets "
+                   "IN_BARRIER iff no reader is left, and otherwise leaves the width field alone (ENQUEUED is added only for a DIRTY queue)", floor=16)
+    k = consts.get(["DISPATCH_QUEUE_WIDTH_FULL", "DISPATCH_QUEUE_WIDTH_SHIFT", "DISPATCH_QUEUE_PENDING_BARRIER", "DISPATCH_QUEUE_WIDTH_MASK"], srcdir=q.srcdir)
+    FULL, SH, PB, WM = k["DISPATCH_QUEUE_WIDTH_FULL"], k["DISPATCH_QUEUE_WIDTH_SHIFT"], k["DISPATCH_QUEUE_PENDING_BARRIER"], k["DISPATCH_QUEUE_WIDTH_MASK"]
+    fn = prog.fn("_dispatch_lane_non_barrier_complete_try_lock")
+    rep.saw(fn)
+    wl = [l for l in fn.all_insts() if l.op == "load" and "dq_width" in prog.fields(l)]
+    if not wl:
+        rep.unknown(rid, "anchor vanished: _dispatch_lane_non_barrier_complete_try_lock does not read dq_width")
+        return
+    OWNER = 0x1234
+    for w in (2, 4):
+        for left in (0, 1, 2):
+            if left >= w:
+                continue
+            for pend in (0, 1):
+                for dirty in (0, 1):
+                    new = ((FULL - w + left + (w - 1 if pend else 0)) << SH) | (PB if pend else 0) | (q.DIRTY if dirty else 0) | 0x1000000000
+                    old = new + q.WIDTH_INTERVAL
+                    env = {l.id: w for l in wl}
+                    env.update({("a", 1): old, ("a", 2): new, ("a", 3): OWNER})
+                    r, env = concrete_walk(fn, env, lambda i: i.op == "ret")
+                    v = ceval(fn, r.ops[0], {k_: v_ for k_, v_ in env.items() if not isinstance(v_, tuple)}) if r is not None and r.ops else None
+                    if v is None:
+                        rep.unknown(rid, "could not evaluate _dispatch_lane_non_barrier_complete_try_lock for width %d, %d reader(s) left" % (w, left))
+                        continue
+                    took = bool(v & q.IN_BARRIER)
+                    want = left == 0
+                    okv = took == want
+                    if took and want:
+                        okv = (v & WM) == q.WIDTH_FULL_BIT and not (v & q.DIRTY) and (v & OWNER) == OWNER and not (v & PB)
+                    elif not took:
+                        okv = okv and (v & ~q.ENQUEUED) == (new & ~q.ENQUEUED) and bool(v & q.ENQUEUED) == bool(dirty or (new & q.ENQUEUED))
+                    rep.require(rid, okv, fn.file + ":" + str(fn.d.get("line")), fn.name, "last-reader-lock:%d:%d:%d:%d" % (w, left, pend, dirty),
+                                "_dispatch_lane_non_barrier_complete_try_lock on a width-%d queue with %d reader(s) still running%s%s turns %#x into %#x: it must take "
+                                "IN_BARRIER (full width, owner set, DIRTY and PENDING_BARRIER cleared) exactly when no reader is left - taking it with a reader still "
+                                "running lets the next barrier start beside that reader" % (w, left, ", a parked barrier" if pend else "", ", DIRTY" if dirty else "", new, v),
+                                sample={"width": w, "readers_left": left, "pending": bool(pend), "takes_barrier": want})
+
+
+def rule_AI13(rep, prog, q):
+    rid = rep.rule("C04-AI13", "the drainer's try-lock: _dispatch_queue_drain_try_lock, evaluated over queue widths, readers in flight and a parked barrier, takes the "
+                   "drain lock only from a state whose width field is below FULL (nobody out of width, in particular no reader running beside a parked barrier's "
+                   "pre-reserved slots), and takes IN_BARRIER with it exactly when no reader is in flight", floor=10)
+    k = consts.get(["DISPATCH_QUEUE_WIDTH_FULL", "DISPATCH_QUEUE_WIDTH_SHIFT", "DISPATCH_QUEUE_PENDING_BARRIER"], srcdir=q.srcdir)
+    FULL, SH, PB = k["DISPATCH_QUEUE_WIDTH_FULL"], k["DISPATCH_QUEUE_WIDTH_SHIFT"], k["DISPATCH_QUEUE_PENDING_BARRIER"]
+    fn = prog.fn("_dispatch_queue_drain_try_lock")
+    rep.saw(fn)
+    wl = [l for l in fn.all_insts() if l.op == "load" and "dq_width" in prog.fields(l)]
+    sl = [l for l in fn.all_insts() if l.op == "load" and (prog.fields(l) & DQ_STATE)]
+    cx = [c for c in fn.all_insts() if c.op == "cmpxchg" and (prog.fields(c) & DQ_STATE)]
+    me = calls_named(fn, "_dispatch_lock_value_for_self")
+    if not wl or not sl or not cx or not me:
+        rep.unknown(rid, "anchor vanished in _dispatch_queue_drain_try_lock (dq_width loads=%d, state loads=%d, cmpxchg=%d, owner=%d)" % (len(wl), len(sl), len(cx), len(me)))
+        return
+    OWNER = 0x1234
+    for w in (2, 4):
+        for inflight in (0, 1, 2):
+            if inflight > w - 1:
+                continue
+            for pend in (0, 1):
+                S = ((FULL - w + inflight + (w - 1 if pend else 0)) << SH) | (PB if pend else 0) | q.ENQUEUED
+                env = {l.id: w for l in wl}
+                env.update({l.id: S for l in sl})
+                env.update({c.id: OWNER for c in me})
+                env[("a", 1)] = 0
+                hit, env = concrete_walk_any(fn, env, lambda i: i in cx or i.op == "ret")
+                if hit is None:
+                    rep.unknown(rid, "could not evaluate _dispatch_queue_drain_try_lock for width %d, %d in flight" % (w, inflight))
+                    continue
+                v = ceval(fn, hit.ops[2], {k_: v_ for k_, v_ in env.items() if not isinstance(v_, tuple)}) if hit.op == "cmpxchg" else None
+                locked = v is not None and (v & OWNER) == OWNER
+                barrier = locked and bool(v & q.IN_BARRIER)
+                can = (S & ~(q.WIDTH_FULL_BIT - 1) & ((1 << 58) - 1) & ~0) < q.WIDTH_FULL_BIT and ((S >> SH) & 0x1fff) < FULL
+                want_lock = ((FULL - w + inflight + (w - 1 if pend else 0)) < FULL)
+                want_barrier = want_lock and inflight == 0
+                rep.require(rid, locked == want_lock and barrier == want_barrier, fn.file + ":" + str(fn.d.get("line")), fn.name,
+                            "drain-try-lock:%d:%d:%d" % (w, inflight, pend),
+                            "_dispatch_queue_drain_try_lock on a width-%d queue with %d reader(s) in flight%s (state %#x) %s%s; expected %s%s: a drainer that locks the "
+                            "queue as a barrier while a reader is still running starts the parked barrier beside that reader"
+                            % (w, inflight, " and a parked barrier" if pend else "", S, "locks" if locked else "does not lock", " with IN_BARRIER" if barrier else "",
+                               "lock" if want_lock else "no lock", " with IN_BARRIER" if want_barrier else ""),
+                            sample={"width": w, "in_flight": inflight, "pending": bool(pend), "lock": want_lock, "barrier": want_barrier})
+
+
 def C02_carries(prog, q, fn, op):
     from .C02 import carries_barrier
     return carries_barrier(prog, q, fn, op)
@@ -535,8 +622,20 @@ def run(rep, tier="quick", srcdir=None, only=None):
         rule_SB5(rep, prog, q)
     if want("C04-SB11"):
         rule_SB11(rep, prog, q)
+    if want("C04-AI12"):
+        rule_AI12(rep, prog, q)
+    if want("C04-AI13"):
+        rule_AI13(rep, prog, q)
+    if want("C01-MP15"):
+        # the concurrent drainer that could not turn its slots into the barrier lock leaves with nothing owned (shared with C01)
+        from . import C01
+        C01.rule_MP15(rep, prog, q)
     if want("C04-MP6"):
         rule_MP6(rep, prog, q)
+    if want("C15-TB6"):
+        # the barrier owner gives back exactly what taking the barrier added, at every completion site (shared with C15)
+        from . import C15
+        C15.rule_TB6(rep, prog, q)
     if want("C10-SB4"):
         # dispatch_apply's iterations count as (non-barrier) items of the queue only because the apply is submitted to it (shared with C10)
         from . import C10
